@@ -425,7 +425,7 @@ class Unit:
         if s not in self.trusted:
             self.trusted.append(s)
 
-    def render(self, canary=False):
+    def render(self, canary=False, path_canary=False):
         """Return (text, linemap) where linemap[i] (1-based line) = dict(kind=..., ...).
         canary=True: every real function is followed by a copy `<name>__canary` whose contract additionally
         ensures false; callers keep calling the original, so each copy must fail on its own."""
@@ -513,6 +513,42 @@ class Unit:
                     emit("    decreases %s" % w.decreases, {"kind": "ghost", "fn": fq})
                 # body
                 pieces = w.render_body()
+                if is_canary and path_canary:
+                    # reachability of every early exit: `return E` becomes `{ proof { assert(false); } return E }`; each assert must FAIL
+                    saved_edits = list(w.edits)
+                    try:
+                        for kind, s0, e0 in lexer.code_tokens(w.body):
+                            if kind == "ident" and w.body[s0:e0] == "return" and not any(ed.s <= s0 < ed.e for ed in saved_edits):
+                                depth = 0
+                                end = None
+                                for k2, s2, e2 in lexer.tokens(w.body, e0):
+                                    if k2 != "punct":
+                                        continue
+                                    ch = w.body[s2]
+                                    if ch in "([{":
+                                        depth += 1
+                                    elif ch in ")]}":
+                                        if depth == 0:
+                                            end = s2
+                                            break
+                                        depth -= 1
+                                    elif ch in ";," and depth == 0:
+                                        end = s2
+                                        break
+                                if end is None:
+                                    continue
+                                k0 = s0 - 1
+                                while k0 >= 0 and w.mbody[k0] in " \t\r\n":
+                                    k0 -= 1
+                                if k0 >= 1 and w.mbody[k0 - 1:k0 + 1] == "=>":
+                                    # expression position (match arm): wrap
+                                    w.edits.append(Edit(s0, s0, "{ proof { assert(false); /*CANARY-PATH*/ } ", "CANARY", "", 10 ** 6))
+                                    w.edits.append(Edit(end, end, " }", "CANARY", "", 10 ** 6 + 1))
+                                else:
+                                    w.edits.append(Edit(s0, s0, "proof { assert(false); /*CANARY-PATH*/ } ", "CANARY", "", 10 ** 6))
+                        pieces = w.render_body()
+                    finally:
+                        w.edits = saved_edits
                 cur = ""
                 cur_info = None
                 body_line0 = lexer.line_of(w.ex.file_text, w.ex.body_open)
